@@ -1,66 +1,109 @@
-(* C03 driver: SPSC index queue / spsc queue step model against the real queues (G1). *)
+(* C03 driver: SPSC index queue / spsc queue / safely overflowing index queue step models
+   against the real queues (G1). *)
 open Model
 open G1drv
 
-let parse_op s =
+type aop = AcqP | RelP | AcqC | RelC | Push of int | Pop
+let parse_aop s =
   match s with
-  | "acqp" -> OAcqP | "relp" -> ORelP | "acqc" -> OAcqC | "relc" -> ORelC | "pop" -> OPop
-  | _ when String.length s > 4 && String.sub s 0 4 = "push" -> OPush (n_of_int (int_of_string (String.sub s 4 (String.length s - 4))))
+  | "acqp" -> AcqP | "relp" -> RelP | "acqc" -> AcqC | "relc" -> RelC | "pop" -> Pop
+  | _ when String.length s > 4 && String.sub s 0 4 = "push" -> Push (int_of_string (String.sub s 4 (String.length s - 4)))
   | _ -> failwith ("op " ^ s)
+
+let rec int_of_nat = function O -> 0 | S k -> 1 + int_of_nat k
+
+(* replays the return codes of the implementation against the thread programs and collects
+   what the property talks about: accepted pushes, pops, evictions (all in completion order) *)
+let observe overflow (progs : aop list array) rets =
+  let nt = Array.length progs in
+  let ops = Array.map (fun l -> ref l) progs in
+  let pushed = ref [] and popped = ref [] and evicted = ref [] in
+  let holds_p = Array.make nt false and holds_c = Array.make nt false in
+  let dec code = Printf.sprintf "%Lu" (Int64.sub (Int64.of_string ("0u" ^ code)) 1L) in
+  List.iter (fun (t, code) ->
+    let rec next () = match !(ops.(t)) with
+      | [] -> None
+      | o :: r -> ops.(t) := r;
+        (match o with
+         | RelP when not holds_p.(t) -> next ()
+         | RelC when not holds_c.(t) -> next ()
+         | Push _ when not holds_p.(t) -> next ()
+         | Pop when not holds_c.(t) -> next ()
+         | _ -> Some o) in
+    match next () with
+    | Some AcqP -> if code = "1" then holds_p.(t) <- true
+    | Some RelP -> holds_p.(t) <- false
+    | Some AcqC -> if code = "1" then holds_c.(t) <- true
+    | Some RelC -> holds_c.(t) <- false
+    | Some (Push v) ->
+      if overflow then begin
+        pushed := string_of_int v :: !pushed;
+        if code <> "0" && code <> "P" then evicted := dec code :: !evicted end
+      else if code = "1" then pushed := string_of_int v :: !pushed
+    | Some Pop -> if code <> "0" && code <> "P" then popped := dec code :: !popped
+    | None -> ()) rets;
+  (List.rev !pushed, List.rev !popped, List.rev !evicted)
+
+let rec is_subseq a b = match a, b with
+  | [], _ -> true
+  | _, [] -> false
+  | x :: a', y :: b' -> if x = y then is_subseq a' b' else is_subseq a b'
 
 let mk_sys toks =
   match toks with
-  | kind :: cap :: prog :: _ when kind = "iq" || kind = "sq" ->
-    let progs = Array.of_list (List.map (fun t -> List.map parse_op (split_on ',' t)) (String.split_on_char '|' prog)) in
-    let nt = Array.length progs in
-    let rec int_of_nat = function O -> 0 | S k -> 1 + int_of_nat k in
-    let c = ref (spsc_init (n_of_int (int_of_string cap)) (fun t -> let i = int_of_nat t in if i < nt then progs.(i) else [])) in
-    { nthreads = nt;
-      (* ops a thread skips because it does not hold the handle are silent model steps (no event):
-         the implementation performs nothing for them, so they are taken eagerly here *)
-      step = (fun t ->
-        let rec go () = match spsc_step1 (nat_of_int t) !c with
-          | None -> None
-          | Some (c', []) -> c := c'; go ()
-          | Some (c', es) -> c := c'; Some es in go ());
-      finished = (fun t ->
-        let rec go cc = match spsc_step1 (nat_of_int t) cc with
-          | None -> true
-          | Some (c', []) -> go c'
-          | Some _ -> false in go !c);
-      final_ok = (fun toks ->
-        let m = List.map u64_string_of_n (spsc_content (fst !c)) in
-        if m = toks then None else Some (Printf.sprintf "model content [%s] impl content [%s]" (String.concat "," m) (String.concat "," toks)));
-      spec = (fun rets final ->
-        (* the property on the implementation's own observations: with the programs used by the
-           harness thread ops are acq*/rel* (codes 0/1) , pushK (1 = accepted) and pop (v+1 / 0).
-           accepted pushes in completion order = pops in completion order ++ final content *)
-        let ops = Array.map (fun l -> ref l) progs in
-        let pushed = ref [] and popped = ref [] in
-        let holds_p = Array.make nt false and holds_c = Array.make nt false in
-        List.iter (fun (t, code) ->
-          (* next op of thread t that produces a return value *)
-          let rec next () = match !(ops.(t)) with
-            | [] -> None
-            | o :: r -> ops.(t) := r;
-              (match o with
-               | ORelP when not holds_p.(t) -> next ()
-               | ORelC when not holds_c.(t) -> next ()
-               | OPush _ when not holds_p.(t) -> next ()
-               | OPop when not holds_c.(t) -> next ()
-               | _ -> Some o) in
-          match next () with
-          | Some OAcqP -> if code = "1" then holds_p.(t) <- true
-          | Some ORelP -> holds_p.(t) <- false
-          | Some OAcqC -> if code = "1" then holds_c.(t) <- true
-          | Some ORelC -> holds_c.(t) <- false
-          | Some (OPush v) -> if code = "1" then pushed := u64_string_of_n v :: !pushed
-          | Some OPop -> if code <> "0" && code <> "P" then popped := Printf.sprintf "%Lu" (Int64.sub (Int64.of_string ("0u" ^ code)) 1L) :: !popped
-          | None -> ()) rets;
-        let pushed = List.rev !pushed and popped = List.rev !popped in
-        if pushed = popped @ final then None
-        else Some (Printf.sprintf "conservation violated: accepted pushes [%s] <> pops [%s] ++ content [%s]"
-                     (String.concat "," pushed) (String.concat "," popped) (String.concat "," final))) }
+  | kind :: cap :: prog :: _ ->
+    let aprogs = Array.of_list (List.map (fun t -> List.map parse_aop (split_on ',' t)) (String.split_on_char '|' prog)) in
+    let nt = Array.length aprogs in
+    let capi = int_of_string cap in
+    let silent_loop step1 c t =
+      let rec go () = match step1 (nat_of_int t) !c with
+        | None -> None
+        | Some (c', []) -> c := c'; go ()
+        | Some (c', es) -> c := c'; Some es in go () in
+    let fin_loop step1 c t =
+      let rec go cc = match step1 (nat_of_int t) cc with
+        | None -> true
+        | Some (c', []) -> go c'
+        | Some _ -> false in go !c in
+    let sconcat = String.concat "," in
+    if kind = "iq" || kind = "sq" then begin
+      let (((acqp, relp), acqc), relc), pop = spsc_ops in
+      let conv = function AcqP -> acqp | RelP -> relp | AcqC -> acqc | RelC -> relc | Pop -> pop | Push v -> spsc_push (n_of_int v) in
+      let progs = Array.map (List.map conv) aprogs in
+      let c = ref (spsc_init (n_of_int capi) (fun t -> let i = int_of_nat t in if i < nt then progs.(i) else [])) in
+      { nthreads = nt; step = silent_loop spsc_step1 c; finished = fin_loop spsc_step1 c;
+        final_ok = (fun toks ->
+          let m = List.map u64_string_of_n (spsc_content (fst !c)) in
+          if m = toks then None else Some (Printf.sprintf "model content [%s] impl content [%s]" (sconcat m) (sconcat toks)));
+        spec = (fun rets final ->
+          let (pushed, popped, _) = observe false aprogs rets in
+          if pushed <> popped @ final then
+            Some (Printf.sprintf "conservation violated: accepted pushes [%s] <> pops [%s] ++ content [%s]" (sconcat pushed) (sconcat popped) (sconcat final))
+          else if List.length final > capi then Some "content exceeds capacity"
+          else None) }
+    end else if kind = "oq" then begin
+      let (((acqp, relp), acqc), relc), pop = oq_ops in
+      let conv = function AcqP -> acqp | RelP -> relp | AcqC -> acqc | RelC -> relc | Pop -> pop | Push v -> oq_push (n_of_int v) in
+      let progs = Array.map (List.map conv) aprogs in
+      let c = ref (oq_init (n_of_int capi) (fun t -> let i = int_of_nat t in if i < nt then progs.(i) else [])) in
+      { nthreads = nt; step = silent_loop oq_step1 c; finished = fin_loop oq_step1 c;
+        final_ok = (fun toks ->
+          let m = List.map u64_string_of_n (oq_content (fst !c)) in
+          if m = toks then None else Some (Printf.sprintf "model content [%s] impl content [%s]" (sconcat m) (sconcat toks)));
+        spec = (fun rets final ->
+          (* every pushed value is obtained exactly once: popped, evicted or still queued;
+             consumer and producer each see push order; the content is what is left, in order,
+             and fits the capacity (harness values are pairwise distinct) *)
+          let (pushed, popped, evicted) = observe true aprogs rets in
+          let all = List.sort compare (popped @ evicted @ final) in
+          if all <> List.sort compare pushed then
+            Some (Printf.sprintf "conservation violated: pushed [%s] vs popped [%s] + evicted [%s] + content [%s]" (sconcat pushed) (sconcat popped) (sconcat evicted) (sconcat final))
+          else if not (is_subseq popped pushed) then Some (Printf.sprintf "consumer order [%s] is not push order [%s]" (sconcat popped) (sconcat pushed))
+          else if not (is_subseq evicted pushed) then Some (Printf.sprintf "eviction order [%s] is not push order [%s]" (sconcat evicted) (sconcat pushed))
+          else if not (is_subseq final pushed) then Some "content order is not push order"
+          else if List.length final > capi then Some (Printf.sprintf "content [%s] exceeds capacity %d at quiescence" (sconcat final) capi)
+          else None) }
+    end else failwith "unknown queue kind"
   | _ -> failwith "unknown case header"
 
 let () = run mk_sys (fun toks -> String.concat " " toks)
